@@ -11,6 +11,7 @@ var c09Constraints = map[System][]string{
 		"d.d.d - d.d.d", ">=d.d.d-l", "<d.d.d-l", ">d.d.d-l <d.d.d", // 10-13
 		">=d.d.d <d.d.d || >=d.d.d <d.d.d", "d.d.d || d.d.d", "<d.d.d || >d.d.d", "*", "^d.d", "~d", // 14-19
 		"d.d.d-l", ">=d.d", "<d.d", ">d.d.d-l || <d.d.d-l", // 20-23
+		"d.x || d.x", ">=d.d.d-l || ^d.d.d || d.d.d", "^d.d || ~d.x.x-l", "<d.d.d-0d", "d.d.d || d.d.d || d.d.d", // 24-28
 	},
 	NPM: {
 		"d.d.d", ">=d.d.d", "<d.d.d", ">d.d.d", "<=d.d.d",
@@ -18,6 +19,7 @@ var c09Constraints = map[System][]string{
 		"d.d.d - d.d.d", ">=d.d.d-l", "<d.d.d-l", ">d.d.d-l <d.d.d",
 		">=d.d.d <d.d.d || >=d.d.d <d.d.d", "d.d.d || d.d.d", "<d.d.d || >d.d.d", "*", "^d.d", "~d",
 		"d.d.d-l", ">=d.d", "<d.d", ">d.d.d-l || <d.d.d-l",
+		"d.x || d.x", ">=d.d.d-l || ^d.d.d || d.d.d", "^d.d || ~d.x.x-l", "<d.d.d-0d", "d.d.d || d.d.d || d.d.d",
 	},
 	Cargo: {
 		"d.d.d", ">=d.d.d", "<d.d.d", ">d.d.d", "<=d.d.d",
@@ -25,9 +27,10 @@ var c09Constraints = map[System][]string{
 		"=d.d.d", ">=d.d.d-l", "<d.d.d-l", ">d.d.d-l, <d.d.d",
 		"d.d", "d", "=d.d", "*", "^d.d", "~d",
 		"=d.d.d-l", ">=d.d", "<d.d", "^0.0.d",
+		"=d.d.d-0d", "<d.d.d-0d", // 24-25: an all-digit prerelease identifier with a leading zero is not a number here
 	},
 	Go: {
-		"vd.d.d", "vd.d.d-l", "v0.d.d", "v1.d.d",
+		"vd.d.d", "vd.d.d-l", "v0.d.d", "v1.d.d", "vd.d.d-00d",
 	},
 }
 
